@@ -191,3 +191,22 @@ Proof.
     + right. right. split; [exact Ep | reflexivity].
   - cbn in Hs. destruct Hs as [Hs | Hs]; [left; exact Hs | right; left; exact Hs].
 Qed.
+
+(* a verdict INFEASIBLE / UNBOUNDED at the end is the verdict of the last pass, too *)
+Theorem verdict_from_last_pass P orc oscaled fuel s0 s' t :
+  optimize P orc oscaled fuel s0 = Done s' -> status s' = t -> (t = INFEASIBLE \/ t = UNBOUNDED) ->
+  exists f, frame s' = S f /\
+    (o_status (orc f) = t \/ (o_status (orc f) = ABORT_CYCLING /\ o_cycstatus (orc f) = t) \/
+     (p_simp P = true /\ (o_simp (orc f) = S_INFEASIBLE /\ t = INFEASIBLE \/ o_simp (orc f) = S_UNBOUNDED /\ t = UNBOUNDED))).
+Proof.
+  intros H L Ht. destruct (driver_reports_last_pass _ _ _ _ _ _ H) as (a & f & Hf & Hs).
+  exists f. split; [exact Hf|]. rewrite L in Hs.
+  unfold pas_sres in *. destruct (a && p_simp P) eqn:E.
+  - apply andb_true_iff in E as [_ Ep]. destruct (o_simp (orc f)) eqn:Es; cbn in Hs.
+    + destruct Hs as [Hs | Hs]; [left; exact Hs | right; left; exact Hs].
+    + right. right. split; [exact Ep|]. left. split; [reflexivity | exact Hs].
+    + destruct Ht as [-> | ->]; discriminate Hs.
+    + right. right. split; [exact Ep|]. right. split; [reflexivity | exact Hs].
+    + destruct Ht as [-> | ->]; discriminate Hs.
+  - cbn in Hs. destruct Hs as [Hs | Hs]; [left; exact Hs | right; left; exact Hs].
+Qed.
